@@ -37,12 +37,15 @@ Definition eqb_obs (a b : obs) : bool :=
 (* ---------- diff: replay the calls through the model ---------- *)
 Definition queries (o : obs) : list Z := map fst (o_past o).
 
+(* traces of a token with the default (un-hooked) FungibleBurnable wiring are replayed through [step_db] *)
+Definition step_any (h : header) := if h_db h then step_db h else step h.
+
 Fixpoint diff_from (h : header) (s : state) (t : list item) (i : N) : N :=
   match t with
   | [] => 0%N
   | (auths, c, out, o) :: r =>
-      let s' := fst (step h s auths c) in
-      if eqb_out out (snd (step h s auths c)) && eqb_obs o (observe h s' (queries o))
+      let s' := fst (step_any h s auths c) in
+      if eqb_out out (snd (step_any h s auths c)) && eqb_obs o (observe h s' (queries o))
       then diff_from h s' r (N.succ i)
       else N.succ i
   end.
@@ -96,10 +99,21 @@ Definition cps_ok (now cur : Z) (cps : list (Z * Z)) : bool :=
 
 Definition is_none {A} (o : option A) : bool := match o with None => true | Some _ => false end.
 
-Definition past_ok (now : Z) (hist : history) (width : nat) (p : Z * list (option Z)) : bool :=
+(* the answer a checkpoint list (as read through get_checkpoint, oldest first) determines for ledger q:
+   the value of the last entry with ledger <= q, 0 if none *)
+Fixpoint lookup_list (q : Z) (cps : list (Z * Z)) (acc : Z) : Z :=
+  match cps with
+  | [] => acc
+  | (l, v) :: r => if l <=? q then lookup_list q r v else lookup_list q r acc
+  end.
+Definition list_answers (q : Z) (o : obs) : list Z :=
+  map (fun a => lookup_list q (ao_cps a) 0) (o_accts o) ++ [lookup_list q (o_ts_cps o) 0].
+
+Definition past_ok (now : Z) (hist : history) (width : nat) (o : obs) (p : Z * list (option Z)) : bool :=
   let (q, ans) := p in
   if q <? now
   then eqb_list eqb_oz ans (map Some (expected_past q hist width))     (* exactly the value at the end of ledger q *)
+       && eqb_list eqb_oz ans (map Some (list_answers q o))             (* ... and what the checkpoint lists shown say *)
   else (Nat.eqb (length ans) width) && forallb is_none ans.             (* current / future: refused *)
 
 Definition mon_obs (prev_now : Z) (hist : history) (o : obs) : bool :=
@@ -111,60 +125,95 @@ Definition mon_obs (prev_now : Z) (hist : history) (o : obs) : bool :=
   && (o_ts o =? sum_list (map ao_units accts))                            (* vote supply = sum of units *)
   && forallb (fun a => cps_ok (o_now o) (ao_votes a) (ao_cps a)) accts
   && cps_ok (o_now o) (o_ts o) (o_ts_cps o)
-  && forallb (past_ok (o_now o) hist width) (o_past o).
+  && forallb (past_ok (o_now o) hist width o) (o_past o).
 
 (* state persists until a call changes it: after an [Advance] (however long) or a failing call every
    current-state getter - balances, units, delegates, votes, all checkpoints, supplies, owners -
-   answers exactly as in the previous observation (nothing lapses with the passage of ledgers) *)
+   answers exactly as in the previous observation (nothing lapses with the passage of ledgers).
+   The first call is compared with the empty observation of a freshly deployed contract. *)
+Definition empty_obs (h : header) : obs :=
+  mkO (h_start h) (repeat (mkA 0 0 None 0 []) (h_n h)) 0 0 [] (repeat None (h_ids h)) [].
 Definition core_eqb (a b : obs) : bool :=
   eqb_list eqb_acct (o_accts a) (o_accts b) && (o_supply a =? o_supply b) && (o_ts a =? o_ts b)
   && eqb_list eqb_zz (o_ts_cps a) (o_ts_cps b) && eqb_list oaddr_eqb (o_owners a) (o_owners b).
 Definition is_advance (c : call) : bool := match c with Advance _ => true | _ => false end.
-Definition stable_ok (prev : option obs) (c : call) (out : outcome) (o : obs) : bool :=
-  match prev with
-  | Some p => if is_advance c || negb (is_ok out) then core_eqb p o else true
-  | None => true
-  end.
+Definition stable_ok (prev : obs) (c : call) (out : outcome) (o : obs) : bool :=
+  if is_advance c || negb (is_ok out) then core_eqb prev o else true.
 
 (* a delegatee changes only by a successful delegate call of that very account *)
-Definition prev_dlg (prev : option obs) (k : nat) : option addr :=
-  match prev with
-  | Some p => match nth_error (o_accts p) k with Some a => ao_dlg a | None => None end
-  | None => None
-  end.
-Definition dlg_expected (prev : option obs) (c : call) (out : outcome) (k : nat) : option addr :=
+Definition prev_dlg (prev : obs) (k : nat) : option addr :=
+  match nth_error (o_accts prev) k with Some a => ao_dlg a | None => None end.
+Definition dlg_expected (prev : obs) (c : call) (out : outcome) (k : nat) : option addr :=
   match c with
   | Delegate a d => if is_ok out && N.eqb (N.of_nat k) a then Some d else prev_dlg prev k
   | _ => prev_dlg prev k
   end.
-Fixpoint dlg_ok_from (prev : option obs) (c : call) (out : outcome) (rest : list acct_obs) (k : nat) : bool :=
+Fixpoint dlg_ok_from (prev : obs) (c : call) (out : outcome) (rest : list acct_obs) (k : nat) : bool :=
   match rest with
   | [] => true
   | a :: r => oaddr_eqb (ao_dlg a) (dlg_expected prev c out k) && dlg_ok_from prev c out r (S k)
   end.
 
-Fixpoint mon_from (prev : option obs) (prev_now : Z) (hist : history) (t : list item) (i : N) : N :=
+(* no call rewrites the past of a checkpoint list: for every ledger q < now the list of the previous
+   observation and the list shown now determine the same answer (it is enough to ask at the ledgers
+   of the entries of either list and at now-1).  Independent of which past ledgers are queried:
+   dropping, rewriting or back-dating an old checkpoint is caught here. *)
+Definition frame_cands (now : Z) (prev cur : list (Z * Z)) : list Z :=
+  filter (fun l => l <? now) (map fst prev ++ map fst cur) ++ [now - 1].
+Definition cps_frame_ok (now : Z) (prev cur : list (Z * Z)) : bool :=
+  forallb (fun q => lookup_list q prev 0 =? lookup_list q cur 0) (frame_cands now prev cur).
+Fixpoint accts_frame_ok (now : Z) (prev cur : list acct_obs) : bool :=
+  match prev, cur with
+  | [], [] => true
+  | p :: pr, c :: cr => cps_frame_ok now (ao_cps p) (ao_cps c) && accts_frame_ok now pr cr
+  | _, _ => false
+  end.
+
+(* the observation has the shape the header announces, its clock moves exactly as the call says, and
+   it contains the rows the property needs: ledger now (refused) and, when there is one, ledger now-1 *)
+Definition clock_step (c : call) (out : outcome) : Z :=
+  match c with Advance n => if is_ok out then n else 0 | _ => 0 end.
+Definition has_row (q : Z) (o : obs) : bool := existsb (fun p => fst p =? q) (o_past o).
+Definition shape_ok (h : header) (prev : obs) (c : call) (out : outcome) (o : obs) : bool :=
+  Nat.eqb (length (o_accts o)) (h_n h) && Nat.eqb (length (o_owners o)) (h_ids h)
+  && (o_now o =? o_now prev + clock_step c out)
+  && has_row (o_now o) o && ((o_now o =? 0) || has_row (o_now o - 1) o).
+
+Definition mon_item (h : header) (prev : obs) (hist : history) (c : call) (out : outcome) (o : obs) : bool :=
+  mon_obs (o_now prev) hist o && stable_ok prev c out o && dlg_ok_from prev c out (o_accts o) 0
+  && accts_frame_ok (o_now o) (o_accts prev) (o_accts o) && cps_frame_ok (o_now o) (o_ts_cps prev) (o_ts_cps o)
+  && shape_ok h prev c out o.
+
+Fixpoint mon_from (h : header) (prev : obs) (hist : history) (t : list item) (i : N) : N :=
   match t with
   | [] => 0%N
   | (_, c, out, o) :: r =>
-      if mon_obs prev_now hist o && stable_ok prev c out o && dlg_ok_from prev c out (o_accts o) 0
-      then mon_from (Some o) (o_now o) (hist_push (o_now o) (cur_vector o) hist) r (N.succ i)
+      if mon_item h prev hist c out o
+      then mon_from h o (hist_push (o_now o) (cur_vector o) hist) r (N.succ i)
       else N.succ i
   end.
 
+(* A trace with h_db = true comes from the deliberately mis-wired token (default FungibleBurnable): it is
+   replayed against [step_db] only (diff); the property is not claimed for that wiring (Properties/C13.v
+   shows units <> balance there), so the monitor is not applied. *)
 Definition check (t : trace) : verdict :=
   let (h, items) := t in
-  (diff_from h (init h) items 0%N, mon_from None (h_start h) [] items 0%N, 0%N).
+  (diff_from h (init h) items 0%N,
+   if h_db h then 0%N else mon_from h (empty_obs h) [] items 0%N,
+   0%N).
 Definition check_all (ts : list trace) : list verdict := map check ts.
 
 (* ---------- the observations the model itself produces ---------- *)
-Definition input := (list addr * call * list Z)%type.    (* auths, call, query ledgers *)
+Definition input := (list addr * call * list Z)%type.    (* auths, call, extra query ledgers *)
+
+(* every observation asks at least for now-1 (when there is one) and now *)
+Definition std_queries (now : Z) : list Z := (if 0 <? now then [now - 1] else []) ++ [now].
 
 Fixpoint run_model (h : header) (s : state) (ins : list input) : list item :=
   match ins with
   | [] => []
   | (auths, c, qs) :: r =>
       let s' := fst (step h s auths c) in
-      (auths, c, snd (step h s auths c), observe h s' qs) :: run_model h s' r
+      (auths, c, snd (step h s auths c), observe h s' (qs ++ std_queries (s_now s'))) :: run_model h s' r
   end.
 Definition observe_model (h : header) (ins : list input) : trace := (h, run_model h (init h) ins).
